@@ -34,7 +34,7 @@ META = {
     'stubs': ['numpy RandomState.rand -> fresh reals in [0,1); RandomState.permutation -> symbolic permutation (forking)',
               'np.zeros_like on object arrays -> object arrays', 'random.random (artap.utils) -> fresh real in [0,1)'],
     'assumptions': ['boxes of positive width lb < ub (strata and grids of a zero-width box collapse; outside)', 'floats as reals; strata borders are the doubles of np.linspace; Halton unit samples compared at 1e-12',
-                    'other LHS criteria (center, maximin, ...) are not reachable from LHSGenerator and outside',
+                    'the candidate scores of the LHS criteria maximin / centermaximin / correlation (scipy pdist, np.corrcoef: C code) are replaced by arbitrary scores, so that any candidate may be the one returned',
                     'LHS sample counts beyond the bound outside; the digit law covers every index below b^K only'],
 }
 
@@ -55,10 +55,15 @@ def lhs_unit(args):
     N, n = args['N'], args['n']
     DOE = doecommon.install_lhs_random()
 
+    crit = args.get('criterion')
+
     def body(ctx):
-        H = DOE.lhs(n, samples=N)
+        DOE._symx_scores['k'] = 0
+        H = DOE.lhs(n, samples=N) if crit is None else DOE.lhs(n, samples=N, criterion=crit, iterations=args.get('iterations', 2))
+        ctx.check('lhs-shape', tuple(H.shape) != (N, n))
+        if tuple(H.shape) != (N, n):
+            return
         ctx.output('H', [[H[i, j] for j in range(n)] for i in range(N)])
-        ctx.check('lhs-shape', H.shape != (N, n))
         cut = np.linspace(0, 1, N + 1)
         for j in range(n):
             col = [H[i, j] for i in range(N)]
@@ -307,6 +312,13 @@ def configs(tier):
                     'split': 48 if w > 100 else None, 'engine': ve})
         out.append({'name': 'lhs-generator-N%d-n%d' % (N, n), 'task': 'lhs_generator', 'args': {'N': N, 'n': n}, 'weight': 3 * w,
                     'split': 48 if w > 30 else None, 'engine': ve})
+    # the other criteria of lhs(): every candidate they choose from must be a Latin hypercube of the requested shape
+    for crit, N, n, it in ((('center', 3, 2, 1), ('maximin', 2, 2, 2), ('centermaximin', 3, 2, 1), ('correlation', 3, 2, 1), ('correlation', 2, 3, 2)) if Q else
+                           (('center', 3, 2, 1), ('center', 2, 3, 1), ('maximin', 2, 2, 2), ('maximin', 3, 2, 1), ('centermaximin', 3, 2, 2),
+                            ('correlation', 3, 2, 1), ('correlation', 2, 3, 2), ('correlation', 2, 2, 3))):
+        w = __import__('math').factorial(N) ** (n * it) * 2 ** it
+        out.append({'name': 'lhs-unit-%s-N%d-n%d-it%d' % (crit, N, n, it), 'task': 'lhs_unit',
+                    'args': {'N': N, 'n': n, 'criterion': crit, 'iterations': it}, 'weight': w, 'split': 48 if w > 100 else None, 'engine': ve})
     bases = ((2, 8), (3, 6), (5, 5), (7, 4)) if Q else ((2, 10), (3, 7), (5, 6), (7, 5), (11, 4), (13, 4))
     for b, K in bases:
         out.append({'name': 'vdc-digit-law-b%d-K%d' % (b, K), 'task': 'vdc_digits', 'args': {'base': b, 'K': K}, 'weight': 10 * K,
